@@ -84,7 +84,17 @@ def run(tier, seed):
     from mc.pool import pmap
     from mc.report import Violation
 
-    rf = pmap("checks.c01:fault_job", FAULT_BATCHES, chunk=1, seed=seed, timeout=7200)
+    from mc.boot import HarnessError
+
+    try:
+        rf = pmap("checks.c01:fault_job", FAULT_BATCHES, chunk=1, seed=seed, timeout=7200)
+    except HarnessError as e:
+        # code that keeps state on the Balancer between runs shows different choice points in repeated executions;
+        # that is reported through the localised histories above - without them it is a harness problem
+        if not any(v.case.get("history") for v in res.violations if isinstance(v.case, dict)):
+            raise
+        res.observations.append("fault sub-check skipped, executions are not independent: {}".format(str(e).splitlines()[0][:200]))
+        rf = []
     for b, x in zip(FAULT_BATCHES, rf):
         res.coverage["evaluations"] += x["rows"]
         for v in x["bad"]:
